@@ -274,4 +274,11 @@ def r5_single_evaluator(ctx: Ctx) -> None:
     ctx.note(f"operators lexed in operand context: {sorted(emitted)}; those without an evaluation arm raise (R3 unknown-binary)")
 
 
-RULES = [r1_precedence_order, r2_associativity, r3_evaluation_dispatch, r4_literal_bases, r5_single_evaluator]
+
+def rb_binding_agreement(ctx: Ctx) -> None:
+    from ..ownership import binding_agreement
+
+    binding_agreement(ctx)
+
+
+RULES = [r1_precedence_order, r2_associativity, r3_evaluation_dispatch, r4_literal_bases, r5_single_evaluator, rb_binding_agreement]
